@@ -238,6 +238,31 @@ func drawC15(t *rapid.T) caseC15 {
 		}
 		c.Files = append(c.Files, f)
 	}
+	// the plain round trip of the statement, for every preset and both formats
+	if rapid.IntRange(0, 3).Draw(t, "roundtrip") == 0 {
+		var plain []string
+		for _, f := range c.Files {
+			if f.Kind == "plain" && !strings.HasPrefix(f.Name, "-") && f.Name != "1" && f.Name != "true" &&
+				!strings.HasSuffix(f.Name, ".xz") && !strings.HasSuffix(f.Name, ".lzma") && !strings.HasSuffix(f.Name, ".txz") && !strings.HasSuffix(f.Name, ".tlz") {
+				plain = append(plain, f.Name)
+			}
+		}
+		if len(plain) > 0 {
+			name := rapid.SampledFrom(plain).Draw(t, "rtfile")
+			format := rapid.SampledFrom([]string{"xz", "lzma"}).Draw(t, "rtfmt")
+			preset := rapid.IntRange(0, 9).Draw(t, "rtpreset")
+			first := invC15{Flags: []flagC15{{F: fmt.Sprint(preset), Style: "short"}, {F: "F", Val: format, Style: "short"}}, Files: []string{name}, FlagPos: []int{0, 0}}
+			second := invC15{Flags: []flagC15{{F: "d", Style: "short"}}, Files: []string{name + "." + format}, FlagPos: []int{0}}
+			if rapid.Bool().Draw(t, "rtkeep") {
+				first.Flags = append(first.Flags, flagC15{F: "k", Style: "long"})
+				first.FlagPos = append(first.FlagPos, 1)
+				second.Flags = append(second.Flags, flagC15{F: "f", Style: "short"})
+				second.FlagPos = append(second.FlagPos, 1)
+			}
+			c.Invs = []invC15{first, second}
+			return c
+		}
+	}
 	ninv := rapid.IntRange(1, 2).Draw(t, "ninv")
 	cur := map[string]bool{}
 	for _, f := range c.Files {
@@ -662,6 +687,13 @@ func checkC15(c caseC15, rec *ev.Rec) *ev.Failure {
 		if inv.DashDash {
 			rec.Class("dashdash")
 		}
+		if !o.decompress {
+			f := o.format
+			if f == "auto" {
+				f = "xz"
+			}
+			rec.Class(fmt.Sprintf("compress_preset=%d/%s", o.preset, f))
+		}
 		for _, fl := range inv.Flags {
 			rec.Class("flag=" + fl.F + "/" + fl.Style)
 			if fl.F >= "0" && fl.F <= "9" {
@@ -680,6 +712,14 @@ func checkC15(c caseC15, rec *ev.Rec) *ev.Failure {
 	}
 	if len(c.Invs) == 2 {
 		rec.Class("two_step_history")
+		if a, b := c.Invs[0].opts(), c.Invs[1].opts(); !a.decompress && b.decompress && len(c.Invs[0].Files) == 1 && len(c.Invs[1].Files) == 1 &&
+			strings.HasPrefix(c.Invs[1].Files[0], c.Invs[0].Files[0]+".") {
+			f := a.format
+			if f == "auto" {
+				f = "xz"
+			}
+			rec.Class(fmt.Sprintf("roundtrip_preset=%d/%s", a.preset, f))
+		}
 	}
 	for _, f := range c.Files {
 		rec.Class("member=" + f.Kind)
